@@ -329,8 +329,16 @@ pub fn request_file(stem: &str, text: &str) -> Result<String, String> {
     let file = syn::parse_file(text).map_err(|e| format!("syn: {e}"))?;
     let mut main = None; let mut required = "(norequired)".to_string(); let mut setters = vec![]; let mut output = String::new();
     let mut url = "(missing)".to_string(); let mut verb = String::new(); let mut program: Vec<String> = vec![]; let mut method = "(nomethod)".to_string();
+    let mut imports: Vec<String> = vec![];
     for i in &file.items {
         match i {
+            syn::Item::Use(u) => {
+                // `use crate::model::{A, B};` / `use crate::model::A;`
+                let t = toks(&u.tree);
+                if let Some(rest) = t.strip_prefix("crate::model::") {
+                    for n in rest.trim_start_matches('{').trim_end_matches('}').split(',') { if !n.is_empty() { imports.push(n.to_string()); } }
+                }
+            }
             syn::Item::Struct(s) => {
                 if main.is_none() {
                     main = Some(format!("(struct {} {} {} {})", quote(&s.ident.to_string()), strs("derives", &derives_of(&s.attrs)), doc_sexp(&doc_of(&s.attrs)), fields_sexp(&s.fields)));
@@ -416,5 +424,6 @@ pub fn request_file(stem: &str, text: &str) -> Result<String, String> {
             _ => {}
         }
     }
+    let main = main.map(|m| format!("{m} {}", strs("imports", &imports)));
     Ok(format!("(requestfile {} {} {required} (setters{}) (output {}) (url {url}) (verb {}) (program{}) {method})", quote(stem), main.ok_or("no struct")?, setters.iter().map(|s| format!(" {s}")).collect::<String>(), quote(&output), quote(&verb), program.iter().map(|s| format!(" {s}")).collect::<String>()))
 }
